@@ -568,6 +568,7 @@ pub fn run_batch<C: Check>(c: Arc<C>, cfg: BatchCfg) -> i32 {
 
     // report violations: minimise the first few distinct signatures
     let mut reported = Vec::new();
+    let mut replay_failures = 0;
     let dir = format!("{}/replays", cfg.verif_dir);
     for f in found.iter().take(4) {
         let deadline = Instant::now() + Duration::from_secs(if cfg.tier == Tier::Quick { 20 } else { 60 });
@@ -588,6 +589,28 @@ pub fn run_batch<C: Check>(c: Arc<C>, cfg: BatchCfg) -> i32 {
         println!("VIOLATION property={} replay={}", c.property(), path);
         println!("  oracle={} signature=\"{}\" first-seen-run={}", v.oracle, v.signature, f.idx);
         println!("  {}", v.msg);
+        // the minimised file must reproduce the violation exactly in a fresh process, twice
+        if let Ok(exe) = std::env::current_exe() {
+            let mut ok = 0;
+            for _ in 0..2 {
+                let st = std::process::Command::new(&exe)
+                    .arg("replay")
+                    .arg(&path)
+                    .env("VERIF_DIR", &cfg.verif_dir)
+                    .stdout(std::process::Stdio::null())
+                    .stderr(std::process::Stdio::null())
+                    .status();
+                if matches!(st.map(|s| s.code()), Ok(Some(1))) {
+                    ok += 1;
+                }
+            }
+            if ok == 2 {
+                println!("  replayed twice in fresh processes: identical");
+            } else {
+                println!("  WARNING: replay in a fresh process reproduced it {ok}/2 times");
+                replay_failures += 1;
+            }
+        }
         reported.push(json!({"oracle": v.oracle, "signature": v.signature, "message": v.msg, "replay": path, "run_index": f.idx}));
         exit = 1;
     }
@@ -600,6 +623,9 @@ pub fn run_batch<C: Check>(c: Arc<C>, cfg: BatchCfg) -> i32 {
 
     // harness health
     let mut harness_err: Vec<String> = Vec::new();
+    if replay_failures > 0 {
+        harness_err.push(format!("{replay_failures} replay file(s) did not reproduce exactly in a fresh process"));
+    }
     if !aborted.is_empty() {
         harness_err.push(format!("{} runs aborted by the harness, first: run {} {}", aborted.len(), aborted[0].0, aborted[0].1));
     }
